@@ -30,7 +30,7 @@ from mc.ref import c07_corpus as G7
 FAR = 10**9          # "unlimited" for limits whose default is None
 FAR_DEPTH = 10**6    # "unlimited" for context_depth_limit / block_nesting_limit (defaults are 30)
 
-INNER = "{% capture z %}{{ z }}y{% endcapture %}{{ z }}|"
+INNER = "{% capture z %}{{ z }}y\r{% endcapture %}{{ z }}|\r\n"
 
 NEST_KINDS = ["for", "tablerow", "include_for", "render_for", "for_include", "for_render", "for_call"]
 NEST_KINDS_SMALL = ["for", "tablerow", "render_for", "for_include", "for_call"]
@@ -124,8 +124,8 @@ def c07_cases(tier: str) -> Iterator[dict[str, Any]]:
 
 
 REC_PARTIALS = {
-    "rec_inc": "[{{ n }}{% if n > 0 %}{% assign n = n | minus: 1 %}{% include 'rec_inc' %}{% endif %}]",
-    "rec_ren": "<{{ n }}{% if n > 0 %}{% assign m = n | minus: 1 %}{% render 'rec_ren', n: m %}{% endif %}>",
+    "rec_inc": "[\r\n{{ n }}{% if n > 0 %}{% assign n = n | minus: 1 %}{% include 'rec_inc' %}{% endif %}]",
+    "rec_ren": "<\r{{ n }}{% if n > 0 %}{% assign m = n | minus: 1 %}{% render 'rec_ren', n: m %}{% endif %}>",
     "rec_a": "(a{{ n }}{% if n > 0 %}{% assign m = n | minus: 1 %}{% render 'rec_b', n: m %}{% endif %})",
     "rec_b": "(b{{ n }}{% if n > 0 %}{% assign m = n | minus: 1 %}{% render 'rec_a', n: m %}{% endif %})",
     "rec_for": "^{% for j in (1..n) %}{% assign m = n | minus: 1 %}{% render 'rec_for', n: m %}{% endfor %}$",
@@ -171,8 +171,8 @@ BRANCH_KINDS: dict[str, str] = {
     "case-else": "{% case one %}{% when 2 %}n{% else %}{B}{% endcase %}",
     "case-when2": "{% case one %}{% when 2 %}n{% when 1 %}{B}{% endcase %}",
 }
-BLOCK_DATA = {"t": True, "f": False, "l": [1, 2], "one": 1}
-LEAF = "x{{ one }}"
+BLOCK_DATA = {"t": True, "f": False, "l": [1, 2], "one": 1, "cr": "\n\r|\r"}
+LEAF = "x\r\n{{ one }}{{ cr }}"
 
 
 def chain(kinds: tuple[str, ...] | list[str], leaf: str = LEAF) -> str:
@@ -240,7 +240,7 @@ def var_cases(tier: str) -> Iterator[dict[str, Any]]:
             if not any(i < 4 for i in steps):
                 continue  # no binding at all
             yield {"family": "vars", "source": "".join(VAR_STEPS[i] for i in steps), "partials": {},
-                   "data": {"x": "é€", "y": "abc"}, "extra": False, "loop_vals": [0, 1, 2], "depth_top": 8,
+                   "data": {"x": "é\r\n€", "y": "a\rb\n\rc"}, "extra": False, "loop_vals": [0, 1, 2], "depth_top": 8,
                    "block_top": 4, "shape": {"steps": list(steps)}}
 
 
@@ -255,7 +255,9 @@ def all_cases(tier: str) -> list[dict[str, Any]]:
 
 
 def output_vals(u: int) -> list[int]:
-    vals = {0, 1, 2, 3, u // 2, u - 2, u - 1, u, u + 1, u + 2, 2 * u + 1}
+    """Every integer in [0, min(U+2, 32)] (every point at which a node can find the stream exactly full in small
+    cases), then U/2, U-2..U+2 and 2U+1."""
+    vals = set(range(0, min(u + 2, 32) + 1)) | {u // 2, u - 2, u - 1, u, u + 1, u + 2, 2 * u + 1}
     return sorted(v for v in vals if v >= 0)
 
 
